@@ -47,15 +47,19 @@ ALPHABET_X = ALPHABET + [('x', o, t, m) for o in (0, 1) for t in (0, 1) for m in
 CONFIGS = [(False, False), (True, False), (True, True)]
 
 
-def closing_ops(reent, ops):
+def closing_ops(reent, ops, results=None):
     """Full release by the holder, then a re-acquire probe by everybody (None if the sequence leaves the
-    contract: a thread releasing another thread's lock)."""
+    contract: a thread releasing another thread's lock).  With `results` (of a run with injected faults, `ops`
+    then being the expanded list) an acquire counts only if it really returned True."""
     hold = None
-    for op in ops:
+    for k, op in enumerate(ops):
         if op[0] == 'a':
             _, o, t, m = op
-            if hold is None or (hold[0] == o and hold[1] == t and reent[o]):
-                hold = (o, t, (hold[2] + 1) if hold else 1)
+            ok = hold is None or (hold[0] == o and hold[1] == t and reent[o])
+            if results is not None and k < len(results):
+                ok = results[k].startswith('T')
+            if ok:
+                hold = (o, t, (hold[2] + 1) if (hold and hold[0] == o and hold[1] == t) else 1)
         elif op[0] == 'x':
             pass                 # a with-block gives back what it took
         else:
@@ -203,13 +207,22 @@ def _chunk(payload):
                 res0, env0 = F.run_seq(cfg, (), full, work)
                 if any(r.startswith('B') for r in res0):
                     continue       # an operation that would block for ever is not combined with faults
+                def tail_for(faults):
+                    # what is really held after the faulty run decides who has to release at the end
+                    r, _, flat = F.run_seq(cfg, faults, ops, work, expand=True)
+                    return closing_ops(cfg, flat, r)
                 for i in range(env0.ncall):
-                    cases.append({'reent': list(cfg), 'faults': [i], 'ops': ops, 'tail': tail})
+                    t1 = tail_for((i,))
+                    if t1 is None:
+                        continue
+                    cases.append({'reent': list(cfg), 'faults': [i], 'ops': ops, 'tail': t1})
                     if rng.random() < 0.15:
-                        _, env1 = F.run_seq(cfg, (i,), full, work)
+                        _, env1 = F.run_seq(cfg, (i,), ops + t1, work)
                         for j in range(i + 1, env1.ncall):
                             if rng.random() < 0.5:
-                                cases.append({'reent': list(cfg), 'faults': [i, j], 'ops': ops, 'tail': tail})
+                                t2 = tail_for((i, j))
+                                if t2 is not None:
+                                    cases.append({'reent': list(cfg), 'faults': [i, j], 'ops': ops, 'tail': t2})
         B = 4000
         for k in range(0, len(cases), B):
             batch = cases[k:k + B]
